@@ -355,6 +355,12 @@ func classify(p string, f ecmare.Features, engine string, subj []rune, ogen bool
 	return "mismatch/" + engine + "/" + feat
 }
 
+// requireFlagIndependence=true is the stricter "portable" reading: a pair is
+// decided only if V8 answers the same with and without the u flag. The default
+// follows the property text (ECMA-262 *Unicode-aware* semantics decide; the
+// non-u answer is only tallied), which is what makes \p{..} decidable at all.
+var requireFlagIndependence = os.Getenv("VERIF_C08_REQUIRE_FLAG_INDEPENDENCE") != ""
+
 // O1 timeout: only ever turns a pair into "inconclusive".
 const o1Timeout = 300 * time.Millisecond
 
@@ -780,6 +786,10 @@ func (w *worker) decide(it item, narrate bool) *outcome {
 				}
 				if n := ans.bitN(i); n != m {
 					o.count("pairs_where_v8_result_depends_on_u_flag", 1)
+					if requireFlagIndependence {
+						o.count("pairs_undecided_result_depends_on_u_flag", 1)
+						continue
+					}
 				}
 			}
 			if nvotes == 0 {
